@@ -560,7 +560,10 @@ def run_generic(root, prop, tier, seed, res, cfg=None, extra_props=()):
         eng.env["LEXGEN_VERIF_STEP_BUDGET"] = str(cfg["step_budget"])
     eng.prepare()
     for (family, mode, qn, tn, per_bin, qenv, tenv) in cfg["parts"]:
-        n = qn if tier == "quick" else tn
+        # VP_SCALE multiplies the number of definitions (default: quick x1.5, thorough x2)
+        scale = float(os.environ.get("VP_SCALE", "1.5" if tier == "quick" else "2"))
+        n = int((qn if tier == "quick" else tn) * scale)
+        n = max(per_bin, (n // per_bin) * per_bin)
         penv = qenv if tier == "quick" else tenv
         # indices depend on the seed so that different seeds explore different definitions
         base = (seed % 1000) * 100000
